@@ -14,7 +14,11 @@ use std::borrow::Cow;
 use std::collections::HashMap;
 use std::io::{self, prelude::*};
 use std::path::Path;
+#[cfg(not(zip_rs_zip_verif_loom))]
 use std::sync::Arc;
+// Verification hook (cfg `zip_rs_zip_verif_loom` only): the model checker's Arc.
+#[cfg(zip_rs_zip_verif_loom)]
+use loom::sync::Arc;
 
 #[cfg(any(
     feature = "deflate",
